@@ -9,10 +9,10 @@ CONSTANTS
   Kinds = {"fresh", "rlive", "rstream"}
   Pages = {1, 2}
   SSizes = {1, 2}
-  Filts = {"none", "server"}
+  Filts = {"none"}
   Ops = {"pub", "rem", "exp", "sexp", "clear", "refresh", "poscheck"}
   Pres = {3}
-  N0s = {0}
+  N0s = {0, 2}
   Contig = TRUE
   DropStale = FALSE
 VIEW View
